@@ -34,13 +34,14 @@ URI_PARAM = {"publish": (1, ""), "call": (1, ""), "subscribe": ("topic", ""), "r
 def rule_construction(ctx):
     """Name-agnostic: values are identified by their canonical definition (single-definition locals expanded), objects by the variable
     that holds them; how (and whether) intermediate values are named does not matter."""
-    from .common import local_canon, canon_text
+    from .common import local_canon, canon_text, expand_expr_helpers
     from ..core.flow import local_assignments
     ctx.rule("C04.1-request-construction")
     an = get_analysis(ctx)
     for api, (q, table, rec, msgcls, _uri) in APIS.items():
         fn = ctx.program.func(q)
         ctx.analysed(fn)
+        fn = expand_expr_helpers(ctx, fn)  # `request_id, on_reply = self._new_request()` is the same as the two calls it returns
         g, mf, res = an.get(fn)
         canon = local_canon(fn)
 
@@ -352,6 +353,42 @@ def rule_optional_payload(ctx):
     ctx.require(n_opt >= 3, f"only {n_opt} reads of call_request.options.* found in the RESULT arm")
 
 
+def _options_cells(ctx, oc, c, fn):
+    """Relational, spelling-independent form of "an explicitly given falsy option is not dropped": message_attr() is evaluated cell-wise
+    with exactly one option set (all others None), once to the admissible falsy value of its type and once to a truthy one. Both runs
+    must emit the same keys, and a key that carries the option's value in the truthy run carries the falsy value in the falsy run."""
+    from ..core.tiny import Tiny, Sym
+    from .c03 import falsy_admissible
+    init = c.methods.get("__init__")
+    if init is None:
+        return
+    attrs = sorted({x.attr for x in ast.walk(init.node) if is_self_attr(x) and isinstance(x.ctx, ast.Store)})
+    body = [s_ for s_ in fn.node.body if not (isinstance(s_, ast.Expr) and isinstance(s_.value, ast.Constant))]
+    reps = {"bool": (False, True), "int": (0, 5), "str": ("", "x"), "float": (0.0, 1.5)}
+    n = 0
+    for at in attrs:
+        adm, t = falsy_admissible(ctx, init, at)
+        if not adm or t not in reps:
+            continue
+        outs = []
+        for val in reps[t]:
+            env = {"self." + a: None for a in attrs}
+            env["self." + at] = val
+            env["self"] = Sym("options")
+            try:
+                r = Tiny(env, default_call=lambda f, a_, k_=None: Sym(f"<{f}>"), model_types=True).run(body)
+            except AnalysisError as e:
+                raise AnalysisError(f"[C04.6-options-to-wire] {oc}.message_attr outside the modelled subset: {e}")
+            outs.append(r[1] if r[0] == "return" and isinstance(r[1], dict) else None)
+        d0, d1 = outs
+        n += 1
+        ok = d0 is not None and d1 is not None and set(d0) == set(d1) and all(type(d0[k]) is type(val0) and d0[k] == val0 for k in d1 for val0 in [reps[t][0]]
+                                                                               if type(d1[k]) is type(reps[t][1]) and d1[k] == reps[t][1])
+        ctx.ob(f"{oc}: {at}={reps[t][0]!r} reaches the wire like {at}={reps[t][1]!r} does [2 cells]", ok,
+               f"{oc}({at}={reps[t][1]!r}) emits {d1}, {oc}({at}={reps[t][0]!r}) emits {d0}: the explicitly given value is dropped or altered, the router applies its default", fn.loc())
+    ctx.require(n >= 1 or oc in ("SubscribeOptions",), f"{oc}: no option with an admissible falsy value found")
+
+
 def rule_options(ctx):
     ctx.rule("C04.6-options-to-wire")
     tm = ctx.program.module("autobahn.wamp.types")
@@ -385,6 +422,7 @@ def rule_options(ctx):
                     if k != "receive_progress":
                         ctx.ob(f"{oc}: option '{k}' emitted from the attribute of the same name", k in attrs, f"'{k}' written from self.{attrs}", fn.loc(n.ast))
         ctx.ob(f"{oc}: emits options", n_keys >= 3, f"{n_keys} keys", fn.loc())
+        _options_cells(ctx, oc, c, fn)
 
 
 def run(ctx):
